@@ -85,6 +85,15 @@ def findings_opt():
         stmt({"e": "forin", "x": "e1", "et": SI, "src": {"e": "call", "fi": 1, "args": [
             {"e": "list", "t": ["list", BI], "args": [lit(BI, 5), lit(BI, 6)]}, {"e": "bool", "b": True}]}, "body": block(pr(var("e1")))})],
         funs=[f], exns=["Ex0", "Ex1", "Ex2"], order=[["t", 0], ["f", 0], ["t", 1]]))
+    # F9: record field store inside nested file-level loops is lost by the emerge pass at -Q2+
+    out.append(prog("F9_record_store_in_file_level_loop", [
+        gvar("g2", ["list", SI], {"e": "list", "t": ["list", SI], "args": [lit(SI, 1), lit(SI, 2)]}),
+        gvar("g5", ["rec", 0], {"e": "mkrec", "t": ["rec", 0], "args": [lit(SI, 7)]}),
+        stmt({"e": "forin", "x": "e7", "et": SI, "src": var("g2"), "body": block(
+            {"e": "asg", "x": "g5", "v": {"e": "mkrec", "t": ["rec", 0], "args": [lit(SI, 255)]}},
+            {"e": "forin", "x": "e8", "et": SI, "src": var("g2"), "body": block(
+                {"e": "rset", "r": var("g5"), "i": 1, "v": lit(SI, 5), "rt": 0})})}),
+        stmt(pr({"e": "rget", "r": var("g5"), "i": 1, "rt": 0}))], recs=[[SI]]))
     return out
 
 
